@@ -75,6 +75,8 @@ def generate(R, tier):
         "world": {"seed": R.randrange(1 << 30), "ntaxa": R.randint(1, 4), "nvrnt": R.randint(1, 5)},
         "t_max": R.randint(0, 9),
         "rep0": R.choice([0, 0, 3]),
+        # legal initial states in which some containers are still empty (nothing phenotyped / estimated yet)
+        "empty": sorted(R.sample(range(5), R.choice([0, 0, 0, 1, 2, 5]))),
     }
 
 
@@ -94,6 +96,10 @@ def shrink(sc):
             c = copy.deepcopy(sc)
             c["steps"][i]["loginit"] = False
             yield c
+    if sc.get("empty"):
+        c = copy.deepcopy(sc)
+        c["empty"] = sc["empty"][:-1]
+        yield c
     for i in range(len(sc["crashes"])):
         c = copy.deepcopy(sc)
         del c["crashes"][i]
@@ -110,8 +116,11 @@ def _mkstart(w):
     pg = world.pgmat(R, w["ntaxa"], w["nvrnt"], 1)
     bv = world.bvmat(R, w["ntaxa"], 1)
     gm = world.algmod(R, w["nvrnt"], 1)
-    return [{"pg": pg, "k": 0}, {"pg": copy.deepcopy(pg), "k": 1}, {"tbl": numpy.arange(3.0), "k": 2},
-            {"bv": bv, "k": 3}, {"gm": gm, "k": 4}]
+    out = [{"pg": pg, "k": 0}, {"pg": copy.deepcopy(pg), "k": 1}, {"tbl": numpy.arange(3.0), "k": 2},
+           {"bv": bv, "k": 3}, {"gm": gm, "k": 4}]
+    for i in w.get("empty", []):
+        out[i] = {}
+    return out
 
 
 def _vdig(h, v):
@@ -193,6 +202,8 @@ class Sim:
                             m.flat[0] ^= 1
                     elif isinstance(v, numpy.ndarray) and v.size:
                         v.flat[0] += 1.0
+                    elif isinstance(getattr(v, "u_a", None), numpy.ndarray) and v.u_a.size:
+                        v.u_a.flat[0] += 1.0           # "re-train" the model in place
             elif mode == "delkeys":
                 c.pop("k", None)
                 c["added%d" % (self.serial % 3)] = self.serial
@@ -215,6 +226,8 @@ class Sim:
                             m.flat[-1] -= 1.0
                         else:
                             m.flat[-1] ^= 1
+                    elif isinstance(getattr(v, "u_a", None), numpy.ndarray) and v.u_a.size:
+                        v.u_a.flat[-1] -= 1.0
                 self.fault("stale_reference_mutated")
         self.last_ret = [cdig(c) for c in out]
         return out
@@ -352,7 +365,9 @@ def _check_segment(sim, seg, exp, crashed, step_ix, init_dig, rep_before):
 
 def execute(sc):
     sim = Sim(sc)
-    sim.START = _mkstart(sc["world"])
+    sim.START = _mkstart(dict(sc["world"], empty=sc.get("empty", [])))
+    if sc.get("empty"):
+        sim.fault("empty_start_containers")
     I, P, M, E, S, L = _mkops(sim, sc["modes"])
     lb = L(sc.get("rep0", 0))
     start = copy.deepcopy(sim.START)
@@ -370,6 +385,7 @@ def execute(sc):
     for ix, st in enumerate(sc["steps"]):
         n0 = len(sim.events)
         rep_before = lb.rep
+        initialised_before = sim.start_dig is not None
         crashed = False
         try:
             bp.evolve(nrep=st["nrep"], ngen=st["ngen"], lbook=lb, loginit=st["loginit"])
@@ -382,7 +398,7 @@ def execute(sc):
             break
         seg = sim.events[n0:]
         if seg and seg[0][0] == "init":
-            if sc["preinit"] or ix > 0 and sim.start_dig is not None and False:
+            if sc["preinit"] or initialised_before:
                 sim.viol.append(viol("call-sequence", "RecurrentSelectionBreedingProgram.evolve", "re-initialised",
                                      "initop called although the programme was initialised", step=ix))
             seg = seg[1:]
